@@ -184,6 +184,34 @@ theorem catchUp_spec (src : Array UInt8) (anchor : Nat) : ∀ (fuel ip m len : N
     · rw [if_neg hc]
       exact ⟨0, rfl, rfl, ha, by simpa using he⟩
 
+theorem catchUpL_spec (src : Array UInt8) (anchor low : Nat) : ∀ (fuel ip m len : Nat), anchor ≤ ip → m < ip →
+    (∀ j, j < len → byteAt src (ip + j) = byteAt src (m + j)) →
+    ∃ d, (catchUpL src anchor low fuel ip m).1 + d = ip ∧ (catchUpL src anchor low fuel ip m).2 + d = m ∧ anchor ≤ (catchUpL src anchor low fuel ip m).1 ∧
+      (∀ j, j < len + d → byteAt src ((catchUpL src anchor low fuel ip m).1 + j) = byteAt src ((catchUpL src anchor low fuel ip m).2 + j)) := by
+  intro fuel
+  induction fuel with
+  | zero => intro ip m len ha hm he; exact ⟨0, rfl, rfl, ha, by simpa [catchUpL] using he⟩
+  | succ f ih =>
+    intro ip m len ha hm he
+    unfold catchUpL
+    by_cases hc : ip > anchor ∧ m > low ∧ byteAt src (ip - 1) = byteAt src (m - 1)
+    · rw [if_pos hc]
+      have he' : ∀ j, j < len + 1 → byteAt src (ip - 1 + j) = byteAt src (m - 1 + j) := by
+        intro j hj
+        cases j with
+        | zero => exact hc.2.2
+        | succ j' =>
+          have := he j' (by omega)
+          have e1 : ip - 1 + (j' + 1) = ip + j' := by omega
+          have e2 : m - 1 + (j' + 1) = m + j' := by omega
+          rw [e1, e2]; exact this
+      obtain ⟨d, d1, d2, d3, d4⟩ := ih (ip - 1) (m - 1) (len + 1) (by omega) (by omega) he'
+      refine ⟨d + 1, by omega, by omega, d3, ?_⟩
+      intro j hj
+      exact d4 j (by omega)
+    · rw [if_neg hc]
+      exact ⟨0, rfl, rfl, ha, by simpa using he⟩
+
 /-! ## the search loop -/
 
 theorem shift6 (nb : Nat) (h : 64 ≤ nb) : 1 ≤ nb >>> LZ4V.Gen.LZ4_skipTrigger := by
